@@ -305,4 +305,457 @@ theorem spin_live : ∀ (n : Nat) (w : W), Live w → w.calls.length < n →
             rw [ih.1, d]
             exact ⟨rfl, ih.2⟩
 
+/-! ## reading the result off a sorted queue -/
+
+def decQ (c : DCall (QAct Act)) : Bool :=
+  match kindQ c.act with
+  | .decisive _ => true
+  | _ => false
+
+def resQ (c : DCall (QAct Act)) : Res :=
+  match kindQ c.act with
+  | .decisive r => r
+  | _ => .noresult
+
+def stopOk (t : Nat) (c : DCall (QAct Act)) : Bool := kindQ c.act != Kind.stop || decide (t ≤ c.time)
+
+theorem liveRes_true_sorted : ∀ (q : List (DCall (QAct Act))) (now : Nat), Sorted q → (∀ c ∈ q, now ≤ c.time) →
+    liveRes true now q = match q.find? decQ with
+      | some w => if w.time ≤ now then resQ w else .noresult
+      | none => .noresult
+  | [], _, _, _ => by simp [liveRes]
+  | c :: rest, now, hs, hge => by
+      have hc := hge c List.mem_cons_self
+      have ih := liveRes_true_sorted rest now hs.tail (fun x hx => hge x (List.mem_cons_of_mem _ hx))
+      unfold liveRes
+      by_cases hlt : now < c.time
+      · simp only [hlt, decide_true, Bool.and_self, if_true, List.find?_cons]
+        cases hd : decQ c
+        · simp only
+          cases hf : rest.find? decQ with
+          | none => rfl
+          | some w =>
+            have := hs.head_le w (List.mem_of_find?_eq_some hf)
+            have : ¬ w.time ≤ now := by omega
+            simp [this]
+        · have : ¬ c.time ≤ now := by omega
+          simp [this]
+      · have hmax : max now c.time = now := by omega
+        simp only [hlt, decide_false, Bool.and_false, Bool.false_eq_true, if_false, hmax, List.find?_cons]
+        cases hk : kindQ c.act with
+        | decisive r =>
+          have : c.time ≤ now := by omega
+          simp [decQ, resQ, hk, this]
+        | stop => simp only [decQ, hk]; exact ih
+        | other => simp only [decQ, hk]; exact ih
+
+theorem liveRes_false_sorted : ∀ (q : List (DCall (QAct Act))) (now : Nat), Sorted q → (∀ c ∈ q, now ≤ c.time) →
+    liveRes false now q = match q.find? decQ with
+      | some w => if q.all (stopOk w.time) then resQ w else .noresult
+      | none => .noresult
+  | [], _, _, _ => by simp [liveRes]
+  | c :: rest, now, hs, hge => by
+      have hc := hge c List.mem_cons_self
+      have hmax : max now c.time = c.time := by omega
+      have hrest : ∀ x ∈ rest, c.time ≤ x.time := hs.head_le
+      unfold liveRes
+      simp only [Bool.false_and, Bool.false_eq_true, if_false, hmax, List.find?_cons]
+      cases hk : kindQ c.act with
+      | decisive r =>
+        have hall : (c :: rest).all (stopOk c.time) = true := by
+          simp only [List.all_cons, stopOk, hk, List.all_eq_true, Bool.and_eq_true]
+          refine ⟨by simp, fun x hx => ?_⟩
+          simp [hrest x hx]
+        simp only [decQ, hk, hall, if_true, resQ]
+      | stop =>
+        simp only [decQ, hk]
+        rw [liveRes_true_sorted rest c.time hs.tail hrest]
+        cases hf : rest.find? decQ with
+        | none => rfl
+        | some w =>
+          have hc_ok : stopOk w.time c = decide (w.time ≤ c.time) := by simp [stopOk, hk]
+          simp only [List.all_cons, hc_ok]
+          by_cases hw : w.time ≤ c.time
+          · have hall : rest.all (stopOk w.time) = true := by
+              simp only [List.all_eq_true]
+              intro x hx
+              have := hrest x hx
+              simp [stopOk]; right; omega
+            simp [hw, hall]
+          · simp [hw]
+      | other =>
+        simp only [decQ, hk]
+        rw [liveRes_false_sorted rest c.time hs.tail hrest]
+        cases hf : rest.find? decQ with
+        | none => rfl
+        | some w => simp [List.all_cons, stopOk, hk]
+
+/-! ## the queue a scenario builds, and the scan `winner` -/
+
+def insAll (L q : List (DCall (QAct Act))) : List (DCall (QAct Act)) := L.foldl (fun q c => insert c q) q
+
+theorem insAll_sorted : ∀ (L q : List (DCall (QAct Act))), Sorted q → Sorted (insAll L q)
+  | [], _, h => h
+  | c :: L, q, h => insAll_sorted L _ (insert_sorted c q h)
+
+theorem insAll_all (p : DCall (QAct Act) → Bool) : ∀ (L q : List (DCall (QAct Act))),
+    (insAll L q).all p = (L.all p && q.all p)
+  | [], q => by simp [insAll]
+  | c :: L, q => by
+      have := insAll_all p L (insert c q)
+      simp only [insAll, List.foldl_cons] at this ⊢
+      rw [this, insert_all, List.all_cons]
+      cases p c <;> simp
+
+theorem insAll_append (L1 L2 q : List (DCall (QAct Act))) : insAll (L1 ++ L2) q = insAll L2 (insAll L1 q) := by
+  simp [insAll, List.foldl_append]
+
+def proj (c : DCall (QAct Act)) : Nat × Kind := (c.time, kindQ c.act)
+def key (c : DCall (QAct Act)) : Nat × Res := (c.time, resQ c)
+
+theorem winner_skip (t : Nat) (k : Kind) (rest : List (Nat × Kind)) (best : Option (Nat × Res))
+    (hk : ∀ r, k ≠ .decisive r) : winner ((t, k) :: rest) best = winner rest best := by
+  cases k with
+  | decisive r => exact absurd rfl (hk r)
+  | stop => cases best <;> rfl
+  | other => cases best <;> rfl
+
+theorem insAll_find : ∀ (L q : List (DCall (QAct Act))), Sorted q →
+    ((insAll L q).find? decQ).map key = winner (L.map proj) ((q.find? decQ).map key)
+  | [], q, _ => by simp [insAll, winner]
+  | c :: L, q, hs => by
+      have ih := insAll_find L (insert c q) (insert_sorted c q hs)
+      simp only [insAll, List.foldl_cons] at ih ⊢
+      rw [ih, insert_find decQ c q hs, List.map_cons]
+      cases hk : kindQ c.act with
+      | decisive r =>
+        have hd : decQ c = true := by simp [decQ, hk]
+        have hkey : key c = (c.time, r) := by simp [key, resQ, hk]
+        simp only [hd, if_true, proj, hk]
+        cases hf : q.find? decQ with
+        | none => simp [winner, hkey]
+        | some w =>
+          simp only [Option.map_some, winner, key]
+          by_cases hle : w.time ≤ c.time
+          · have : ¬ c.time < w.time := by omega
+            simp [hle, this, key]
+          · have : c.time < w.time := by omega
+            simp [hle, this, hkey]
+      | stop =>
+        have hd : decQ c = false := by simp [decQ, hk]
+        simp only [hd, Bool.false_eq_true, if_false, proj, hk]
+        rw [winner_skip _ _ _ _ (by intro r; simp)]
+      | other =>
+        have hd : decQ c = false := by simp [decQ, hk]
+        simp only [hd, Bool.false_eq_true, if_false, proj, hk]
+        rw [winner_skip _ _ _ _ (by intro r; simp)]
+
+theorem winner_shift (b : Nat) : ∀ (cs : List (Nat × Kind)) (best : Option (Nat × Res)),
+    winner (cs.map fun c => (b + c.1, c.2)) (best.map fun x => (b + x.1, x.2)) =
+      (winner cs best).map fun x => (b + x.1, x.2)
+  | [], best => by simp [winner]
+  | (t, k) :: rest, best => by
+      cases k with
+      | decisive r =>
+        cases best with
+        | none =>
+          simp only [List.map_cons, Option.map_none, winner]
+          exact winner_shift b rest (some (t, r))
+        | some x =>
+          obtain ⟨tb, rb⟩ := x
+          simp only [List.map_cons, Option.map_some, winner]
+          have := winner_shift b rest (if t < tb then some (t, r) else some (tb, rb))
+          by_cases h : t < tb
+          · have h' : b + t < b + tb := by omega
+            simpa [h, h'] using this
+          · have h' : ¬ b + t < b + tb := by omega
+            simpa [h, h'] using this
+      | stop =>
+        rw [List.map_cons, winner_skip _ _ _ _ (by intro r; simp), winner_skip _ _ _ _ (by intro r; simp)]
+        exact winner_shift b rest best
+      | other =>
+        rw [List.map_cons, winner_skip _ _ _ _ (by intro r; simp), winner_skip _ _ _ _ (by intro r; simp)]
+        exact winner_shift b rest best
+
+theorem mem_insAll (c : DCall (QAct Act)) : ∀ (L q : List (DCall (QAct Act))), c ∈ insAll L q ↔ c ∈ L ∨ c ∈ q
+  | [], q => by simp [insAll]
+  | d :: L, q => by
+      have := mem_insAll c L (insert d q)
+      simp only [insAll, List.foldl_cons] at this ⊢
+      rw [this, mem_insert, List.mem_cons]
+      constructor
+      · rintro (h | h | h) <;> simp [h]
+      · rintro ((h | h) | h) <;> simp [h]
+
+/-- the delayed calls made before `run`, with their labels and absolute times -/
+def preCalls (b : Nat) : Nat → List (Nat × Act) → List (DCall (QAct Act))
+  | _, [] => []
+  | i, (d, a) :: rest => ⟨b + d, .user i a⟩ :: preCalls b (i + 1) rest
+
+/-- the delayed calls made by `f` -/
+def laterCalls (b : Nat) : Nat → List Op → List (DCall (QAct Act))
+  | _, [] => []
+  | i, .later d a :: rest => ⟨b + d, .user i a⟩ :: laterCalls b (i + 1) rest
+  | i, .now _ :: rest => laterCalls b (i + 1) rest
+
+theorem preCalls_proj (b : Nat) : ∀ (i : Nat) (pre : List (Nat × Act)),
+    (preCalls b i pre).map proj = (pre.map fun p => (p.1, kindOf p.2)).map fun c => (b + c.1, c.2)
+  | _, [] => rfl
+  | i, (d, a) :: rest => by simp [preCalls, proj, kindQ, preCalls_proj b (i + 1) rest]
+
+theorem laterCalls_proj (b : Nat) : ∀ (i : Nat) (body : List Op),
+    (laterCalls b i body).map proj = (body.filterMap laterKind).map fun c => (b + c.1, c.2)
+  | _, [] => rfl
+  | i, .later d a :: rest => by simp [laterCalls, proj, kindQ, laterKind, laterCalls_proj b (i + 1) rest]
+  | i, .now a :: rest => by
+      simp only [laterCalls, List.filterMap_cons, laterKind]
+      exact laterCalls_proj b (i + 1) rest
+
+theorem schedPre_eq : ∀ (i : Nat) (pre : List (Nat × Act)) (w : W),
+    schedPre i pre w = { w with calls := insAll (preCalls w.now i pre) w.calls }
+  | _, [], w => by simp [schedPre, preCalls, insAll]
+  | i, (d, a) :: rest, w => by
+      rw [schedPre, schedPre_eq (i + 1) rest]
+      simp [preCalls, insAll, schedule]
+
+/-! ## what `f` does before the loop -/
+
+theorem exec_unattached (l : Nat) (a : Act) (w : W) (h : w.u.attached = false) :
+    (exec l a w).calls = w.calls ∧ (exec l a w).now = w.now ∧ (exec l a w).t0 = w.t0 ∧ (exec l a w).sp = w.sp
+    ∧ (exec l a w).u.attached = false
+    ∧ (exec l a w).u.dres = (match w.u.dres with | some r => some r | none => fireRes a)
+    ∧ (exec l a w).crashed = (w.crashed || a == .stop)
+    ∧ (exec l a w).running = w.running ∧ (exec l a w).stopPatched = w.stopPatched := by
+  cases a with
+  | fire v =>
+    cases hd : w.u.dres with
+    | some r => simp [exec, fireD_of_fired (w := w) (r := .value v) (by simp [hd]), hd, h]
+    | none => simp [exec, fireD_unattached _ hd h, hd, h, fireRes]
+  | fail e =>
+    cases hd : w.u.dres with
+    | some r => simp [exec, fireD_of_fired (w := w) (r := .raised e) (by simp [hd]), hd, h]
+    | none => simp [exec, fireD_unattached _ hd h, hd, h, fireRes]
+  | stop => cases hd : w.u.dres <;> simp [exec, h, fireRes, hd]
+  | noop => cases hd : w.u.dres <;> simp [exec, h, fireRes, hd]
+  | addSel => cases hd : w.u.dres <;> simp [exec, h, fireRes, hd]
+  | setSig s x => cases hd : w.u.dres <;> simp [exec, h, fireRes, hd]
+  | reenter f => cases hd : w.u.dres <;> simp [exec, h, fireRes, hd]
+
+structure BodyFacts (i : Nat) (body : List Op) (w w' : W) : Prop where
+  calls : w'.calls = insAll (laterCalls w.now i body) w.calls
+  now : w'.now = w.now
+  t0 : w'.t0 = w.t0
+  sp : w'.sp = w.sp
+  att : w'.u.attached = false
+  dres : w'.u.dres = (match w.u.dres with | some r => some r | none => (body.filterMap nowAct).findSome? fireRes)
+  crashed : w'.crashed = (w.crashed || (body.filterMap nowAct).any (· == .stop))
+  running : w'.running = w.running
+  stopPatched : w'.stopPatched = w.stopPatched
+
+theorem runBody_facts : ∀ (i : Nat) (body : List Op) (w : W), w.u.attached = false →
+    BodyFacts i body w (runBody i body w)
+  | _, [], w, h => by
+      refine ⟨rfl, rfl, rfl, rfl, h, ?_, by simp [runBody], rfl, rfl⟩
+      simp only [runBody]
+      cases w.u.dres <;> rfl
+  | i, .later d a :: rest, w, h => by
+      have ih := runBody_facts (i + 1) rest (schedule (w.now + d) (.user i a) w) h
+      simp only [runBody]
+      exact ⟨by rw [ih.calls]; simp [laterCalls, insAll], ih.now, ih.t0, ih.sp, ih.att,
+        by rw [ih.dres]; simp only [schedule_u, List.filterMap_cons, nowAct],
+        by rw [ih.crashed]; simp only [schedule_crashed, List.filterMap_cons, nowAct], ih.running, ih.stopPatched⟩
+  | i, .now a :: rest, w, h => by
+      obtain ⟨e1, e2, e3, e4, e5, e6, e7, e8, e9⟩ := exec_unattached i a (logEvent (.user i) w) h
+      have ih := runBody_facts (i + 1) rest (exec i a (logEvent (.user i) w)) e5
+      simp only [runBody]
+      refine ⟨by rw [ih.calls, e1, e2]; simp [laterCalls], by rw [ih.now, e2]; rfl, by rw [ih.t0, e3]; rfl,
+        by rw [ih.sp, e4]; rfl, ih.att, ?_, ?_, by rw [ih.running, e8]; rfl, by rw [ih.stopPatched, e9]; rfl⟩
+      · rw [ih.dres, e6]
+        simp only [logEvent_u, List.filterMap_cons, nowAct, List.findSome?_cons]
+        cases w.u.dres with
+        | some r => rfl
+        | none => cases fireRes a <;> rfl
+      · rw [ih.crashed, e7]
+        simp [nowAct, Bool.or_assoc]
+
+/-- the state in which `f` starts: results forgotten, timeout call scheduled, `reactor.stop` patched, running -/
+def entry (sc : Scen) (w : W) : W :=
+  let w : W := { w with sp := { w.sp with success := none, failure := none } }
+  let w := schedule (w.now + sc.timeout) .timeout w
+  { w with stopPatched := true, running := true, crashed := false,
+           sp := { w.sp with tcall := .pending, spinning := true } }
+
+/-- the state in which the loop starts -/
+def loopStart (sc : Scen) (w : W) : W := finishF sc.term (runBody sc.pre.length sc.body (entry sc w))
+
+theorem spinPhase_eq (sc : Scen) (w : W) :
+    spinPhase sc w = spin exec fuelD ((loopStart sc w).calls.length + 1) (loopStart sc w) := rfl
+
+theorem deliver_result {w : W} (r : Res) (htc : w.sp.tcall = .pending) (hs : w.sp.success = none)
+    (hf : w.sp.failure = none) (hsp : w.sp.spinning = true) (hr : isOwnResult r = true) :
+    getResult (deliver r w).sp = r ∧ (deliver r w).crashed = true := by
+  constructor
+  · unfold deliver
+    simp only [htc]
+    cases r <;> simp_all [getResult, isOwnResult]
+  · unfold deliver
+    simp only [htc, stopReactor_crashed]
+    cases r <;> simp [hsp]
+
+theorem isOwn_fireRes {a : Act} {r : Res} (h : fireRes a = some r) : isOwnResult r = true := by
+  cases a <;> simp [fireRes] at h <;> subst h <;> rfl
+
+theorem isOwn_findSome {as : List Act} {r : Res} (h : as.findSome? fireRes = some r) : isOwnResult r = true := by
+  obtain ⟨a, _, ha⟩ := List.exists_of_findSome?_eq_some h
+  exact isOwn_fireRes ha
+
+/-- the delayed calls of the scenario in scheduling order, labelled, with absolute times -/
+def allCalls (sc : Scen) (b : Nat) : List (DCall (QAct Act)) :=
+  preCalls b 0 sc.pre ++ ⟨b + sc.timeout, .timeout⟩ :: laterCalls b sc.pre.length sc.body
+
+theorem allCalls_proj (sc : Scen) (b : Nat) :
+    (allCalls sc b).map proj = (delayed sc).map fun c => (b + c.1, c.2) := by
+  simp [allCalls, delayed, preCalls_proj, laterCalls_proj, proj, kindQ]
+
+theorem preCalls_time (b : Nat) : ∀ (i : Nat) (pre : List (Nat × Act)), ∀ c ∈ preCalls b i pre, b ≤ c.time
+  | _, [], c, h => by cases h
+  | i, (d, a) :: rest, c, h => by
+      rcases List.mem_cons.mp h with rfl | h
+      · simp
+      · exact preCalls_time b (i + 1) rest c h
+
+theorem laterCalls_time (b : Nat) : ∀ (i : Nat) (body : List Op), ∀ c ∈ laterCalls b i body, b ≤ c.time
+  | _, [], c, h => by cases h
+  | i, .later d a :: rest, c, h => by
+      rcases List.mem_cons.mp h with rfl | h
+      · simp
+      · exact laterCalls_time b (i + 1) rest c h
+  | i, .now a :: rest, c, h => laterCalls_time b (i + 1) rest c h
+
+theorem allCalls_time (sc : Scen) (b : Nat) : ∀ c ∈ allCalls sc b, b ≤ c.time := by
+  intro c hc
+  simp only [allCalls, List.mem_append, List.mem_cons] at hc
+  rcases hc with hc | rfl | hc
+  · exact preCalls_time b _ _ c hc
+  · simp
+  · exact laterCalls_time b _ _ c hc
+
+theorem entry_body (sc : Scen) (w : W) (hq : w.calls = insAll (preCalls w.now 0 sc.pre) []) (hatt : w.u.attached = false)
+    (hdres : w.u.dres = none) :
+    let wD := runBody sc.pre.length sc.body (entry sc w)
+    wD.calls = insAll (allCalls sc w.now) [] ∧ wD.now = w.now ∧ wD.sp.tcall = .pending ∧ wD.sp.success = none
+    ∧ wD.sp.failure = none ∧ wD.sp.spinning = true ∧ wD.u.attached = false ∧ wD.u.dres = syncFire sc
+    ∧ wD.crashed = syncStop sc := by
+  have hb := runBody_facts sc.pre.length sc.body (entry sc w) (by simpa [entry] using hatt)
+  refine ⟨?_, ?_, ?_, ?_, ?_, ?_, hb.att, ?_, ?_⟩
+  · rw [hb.calls]
+    simp only [entry, schedule_calls, schedule_now, hq, allCalls, insAll_append]
+    simp [insAll]
+  · rw [hb.now]; rfl
+  · rw [hb.sp]; rfl
+  · rw [hb.sp]; rfl
+  · rw [hb.sp]; rfl
+  · rw [hb.sp]; rfl
+  · rw [hb.dres]
+    have : (entry sc w).u.dres = none := by simpa [entry] using hdres
+    rw [this]; rfl
+  · rw [hb.crashed]
+    simp [entry, syncStop]
+
+/-- **the loop computes the declarative `expected`** -/
+theorem spinPhase_result (sc : Scen) (w : W) (hq : w.calls = insAll (preCalls w.now 0 sc.pre) [])
+    (hatt : w.u.attached = false) (hdres : w.u.dres = none) :
+    getResult (spinPhase sc w).sp = expected sc ∧
+    ((spinPhase sc w).crashed = true ∨ (spinPhase sc w).calls = []) := by
+  obtain ⟨hcalls, hnow, htc, hs, hf, hsp, hat, hdr, hcr⟩ := entry_body sc w hq hatt hdres
+  rw [spinPhase_eq]
+  -- a synchronous result: recorded at once, the reactor is crashed before the loop starts
+  have sync : ∀ r, isOwnResult r = true → syncRes sc = some r →
+      loopStart sc w = deliver r (runBody sc.pre.length sc.body (entry sc w)) ∨
+      loopStart sc w = deliver r { runBody sc.pre.length sc.body (entry sc w) with
+        u := { (runBody sc.pre.length sc.body (entry sc w)).u with attached := true } } →
+      getResult (spin exec fuelD ((loopStart sc w).calls.length + 1) (loopStart sc w)).sp = expected sc ∧
+      ((spin exec fuelD ((loopStart sc w).calls.length + 1) (loopStart sc w)).crashed = true ∨
+       (spin exec fuelD ((loopStart sc w).calls.length + 1) (loopStart sc w)).calls = []) := by
+    intro r hr hsr hls
+    have hexp : expected sc = r := by simp [expected, hsr]
+    rcases hls with hls | hls
+    · obtain ⟨h1, h2⟩ := deliver_result (w := runBody sc.pre.length sc.body (entry sc w)) r htc hs hf hsp hr
+      rw [hls, spin_crashed _ _ h2, hexp]
+      exact ⟨h1, Or.inl h2⟩
+    · obtain ⟨h1, h2⟩ := deliver_result (w := { runBody sc.pre.length sc.body (entry sc w) with
+        u := { (runBody sc.pre.length sc.body (entry sc w)).u with attached := true } }) r htc hs hf hsp hr
+      rw [hls, spin_crashed _ _ h2, hexp]
+      exact ⟨h1, Or.inl h2⟩
+  cases hterm : sc.term with
+  | ret v => exact sync (.value v) rfl (by simp [syncRes, hterm]) (Or.inl (by simp [loopStart, finishF, hterm]))
+  | raise e => exact sync (.raised e) rfl (by simp [syncRes, hterm]) (Or.inl (by simp [loopStart, finishF, hterm]))
+  | deferred =>
+    cases hsf : syncFire sc with
+    | some r =>
+      refine sync r (isOwn_findSome hsf) (by simp [syncRes, hterm, hsf]) (Or.inr ?_)
+      simp only [loopStart, finishF, hterm]
+      rw [hdr, hsf]
+    | none =>
+      have hsr : syncRes sc = none := by simp [syncRes, hterm, hsf]
+      have hls : loopStart sc w = { runBody sc.pre.length sc.body (entry sc w) with
+          u := { (runBody sc.pre.length sc.body (entry sc w)).u with attached := true } } := by
+        simp only [loopStart, finishF, hterm]
+        rw [hdr, hsf]
+      have hlive : Live (loopStart sc w) := by
+        rw [hls]
+        exact ⟨rfl, by simpa [hsf] using hdr, htc, hs, hf, hsp⟩
+      have hcalls' : (loopStart sc w).calls = insAll (allCalls sc w.now) [] := by rw [hls]; exact hcalls
+      have hnow' : (loopStart sc w).now = w.now := by rw [hls]; exact hnow
+      have hcr' : (loopStart sc w).crashed = syncStop sc := by rw [hls]; exact hcr
+      cases hss : syncStop sc with
+      | true =>
+        rw [spin_crashed _ _ (by rw [hcr', hss])]
+        exact ⟨by rw [getResult_live hlive]; simp [expected, hsr, hss], Or.inl (by rw [hcr', hss])⟩
+      | false =>
+        have hsl := spin_live ((loopStart sc w).calls.length + 1) (loopStart sc w) hlive (Nat.lt_succ_self _)
+          (by intro h; rw [hcr', hss] at h; cases h)
+        refine ⟨?_, hsl.2⟩
+        rw [hsl.1, hcr', hss, hcalls', hnow']
+        have hsorted : Sorted (insAll (allCalls sc w.now) []) := insAll_sorted _ _ (by simp [Sorted])
+        have hge : ∀ c ∈ insAll (allCalls sc w.now) [], w.now ≤ c.time := by
+          intro c hc
+          rcases (mem_insAll _ _ _).mp hc with hc | hc
+          · exact allCalls_time sc w.now c hc
+          · cases hc
+        rw [liveRes_false_sorted _ _ hsorted hge]
+        have hfind := insAll_find (allCalls sc w.now) [] (by simp [Sorted])
+        rw [allCalls_proj] at hfind
+        have hshift := winner_shift w.now (delayed sc) none
+        simp only [List.find?_nil, Option.map_none] at hfind hshift
+        rw [hshift] at hfind
+        simp only [expected, hsr, hss, Bool.false_eq_true, if_false]
+        cases hw : winner (delayed sc) none with
+        | none =>
+          rw [hw] at hfind
+          cases hq' : (insAll (allCalls sc w.now) []).find? decQ with
+          | none => rfl
+          | some x => rw [hq'] at hfind; simp at hfind
+        | some tr =>
+          obtain ⟨t, r⟩ := tr
+          rw [hw] at hfind
+          cases hq' : (insAll (allCalls sc w.now) []).find? decQ with
+          | none => rw [hq'] at hfind; simp at hfind
+          | some x =>
+            rw [hq'] at hfind
+            simp only [Option.map_some, key, Option.some.injEq, Prod.mk.injEq] at hfind
+            obtain ⟨hxt, hxr⟩ := hfind
+            have hallq : (insAll (allCalls sc w.now) []).all (stopOk x.time) = noStopBefore t (delayed sc) := by
+              rw [insAll_all]
+              simp only [List.all_nil, Bool.and_true]
+              have : (allCalls sc w.now).all (stopOk x.time)
+                  = ((allCalls sc w.now).map proj).all (fun c => c.2 != Kind.stop || decide (x.time ≤ c.1)) := by
+                rw [List.all_map]; rfl
+              rw [this, allCalls_proj, hxt]
+              simp only [noStopBefore, List.all_map]
+              apply List.all_congr rfl
+              intro c
+              simp
+            simp only [hallq, hxr]
+
 end TTV.Props.C15
